@@ -1,4 +1,4 @@
-import os
+import os, json
 from engine import Query
 META = {}
 # known findings of this harness; with VF_KF_MANUAL=1 the defines are passed directly (ids not yet in known_findings.json)
@@ -51,7 +51,7 @@ def Q(pre, op, src=None, kf_only=None, stub=True, **kw):
         for k in excl: d['KF_EXCL_' + k.replace('-', '_')] = 1
         if kf_only: d['KF_ONLY_' + kf_only.replace('-', '_')] = 1
     return Query(name, 'C12_value.cpp', 'h_step', d, bounds=B, default_unwind=6, rec_bounds={}, default_rec=3, timeout=300, mem_gb=8,
-                 leak=True, stubs=({STN: 'stub_strtonum'} if stub else {POWN: 'stub_pow', POWP: 'stub_pow'}), extra_cbmc=XC, kf_excl=excl, kf_only=(None if MAN else kf_only), **kw)
+                 leak=True, stubs=({STN: 'stub_strtonum'} if stub else {}), extra_cbmc=XC, kf_excl=excl, kf_only=(None if MAN else kf_only), **kw)
 def queries(tier):
     q = tier == 'quick'
     qs = []
@@ -86,9 +86,17 @@ def queries(tier):
         c = cls(p)
         if c['K'] == 3 and c['N'] > 0 and c['E1'] != 0:
             A('AP_ELEM', SEL=0); A('AP_ELEM', SEL=1)
-    # numeric / boolean coercion of strings (real Digit::stringToNumber, no stub): every string of 1..3 units, and of 4 / 5 units ("true" / "false")
-    for p in (('S1', 'S2', 'S4') if q else ('S0', 'S1', 'S2', 'S3', 'S4', 'S5', 'P_S2')):
-        qs.append(Q(p, 'NONE', COERCE=1, stub=False))
+    # numeric / boolean coercion of strings (real Digit::stringToNumber and power kernels, no stub): concrete texts with their expected reading
+    import struct
+    def dbl(x): return struct.unpack('<Q', struct.pack('<d', x))[0]
+    CO = [('0', 2, 0, 0), ('7', 2, 7, 0), ('123', 2, 123, 0), ('-5', 3, (1 << 64) - 5, 0), ('1.5', 1, dbl(1.5), 0), ('true', 0, 0, 1), ('false', 0, 0, 2),
+          ('abc', 0, 0, 0), ('', 0, 0, 0), ('12a', 0, 0, 0), ('007', 0, 0, 0), ('1e2', 1, dbl(100.0), 0), ('-0', 3, 0, 0), ('True', 0, 0, 0), ('+3', 2, 3, 0)]
+    for i, (txt, et, eb, ebool) in enumerate(CO if not q else CO[:9]):
+        for p in (('S%d' % len(txt),) if q or len(txt) > 2 else ('S%d' % len(txt), 'P_S%d' % len(txt))):
+            x = Q(p, 'NONE', COERCE=1, stub=False)
+            x.defs.update({'CSTR': json.dumps(txt), 'EXP_T': et, 'EXP_BITS': '%dULL' % eb, 'EXP_BOOL': ebool})
+            x.name = 'COERCE/%s/%s' % (p, txt or 'empty')
+            qs.append(x)
     # the findings themselves
     qs.append(Q('UI', 'AP_SCALAR', SEL=3, W=0, kf_only=KF_CTOR))
     qs.append(Q('D', 'INDEX', IDX=0, W=0, kf_only=KF_CTOR))
